@@ -1,5 +1,6 @@
 import SedVerif.Proofs.FitFlags
 import SedVerif.Properties.C01
+import SedVerif.Model.Rank
 /-!
 # C03 — data flags mean what the data-format page says
 
@@ -81,6 +82,25 @@ theorem C03_ignored (lg : K → K) (ln10 : K) {os os' : List (Obs K)}
     have : obsPts lg ln10 os ks = obsPts lg ln10 os' ks := by
       funext mf; simp only [obsPts, hmap]
     simp only [obsFit3, this]
+
+/-- **C03 (ignored bands, predicted fluxes).** Corollary of `C03_ignored`: the predicted log fluxes stored
+    with every row (`FitInfo.model_fluxes`: `model + model_log_flux` in the distance-independent mode,
+    the row gathered at the reported distance in the distance-dependent mode) are unaffected by the
+    content of flag-0 / flag-9 bands as well — at every band, the ignored ones included. -/
+theorem C03_ignored_predicted (lg : K → K) (ln10 : K) {os os' : List (Obs K)}
+    (h : List.Forall₂ SameUpToIgnored os os') :
+    (∀ lo hi ks mf,
+      predicted2 (fit2 lo hi (obsPts lg ln10 os ks mf)).1 (fit2 lo hi (obsPts lg ln10 os ks mf)).2
+          (obsPts lg ln10 os ks mf) mf
+        = predicted2 (fit2 lo hi (obsPts lg ln10 os' ks mf)).1 (fit2 lo hi (obsPts lg ln10 os' ks mf)).2
+          (obsPts lg ln10 os' ks mf) mf) ∧
+    (∀ big ln1m lo hi ks mfd,
+      predictedRow3 big ln1m lo hi (mfd.map (obsPts lg ln10 os ks)) mfd
+        = predictedRow3 big ln1m lo hi (mfd.map (obsPts lg ln10 os' ks)) mfd) := by
+  have hmap := (C03_ignored lg ln10 h).1
+  have hpts : obsPts lg ln10 os = obsPts lg ln10 os' := by
+    funext ks mf; simp only [obsPts, hmap]
+  exact ⟨fun lo hi ks mf => by rw [hpts], fun big ln1m lo hi ks mfd => by rw [hpts]⟩
 
 /-- **C03 (weights).** `Source.get_log_fluxes` keeps the flag, gives a non-negative weight, and gives
     weight zero to every band whose flag is not 1 or 4 (so flags 0, 2, 3, 9 never enter a weighted
